@@ -72,8 +72,17 @@ func randomScripts(c *sup.Ctx, r *rng.R) {
 func stormScenario(c *sup.Ctx, r *rng.R) {
 	disk := c.Local%2 == 1
 	g := 4 + r.Intn(9)
-	ops, problems := life.OpenCloseStorm(c.Tmp, disk, g, 12, r)
+	var ops int
+	var problems []string
+	kind := "warm"
+	if (c.Local/2)%2 == 1 {
+		kind = "cold" // nobody holds the bucket open when the goroutines open it
+		ops, problems = life.ColdOpenStorm(c.Tmp, disk, 2+r.Intn(6), 6, r)
+	} else {
+		ops, problems = life.OpenCloseStorm(c.Tmp, disk, g, 12, r)
+	}
 	c.Count("storms", 1)
+	c.Count("storms_"+kind, 1)
 	c.Count("storm_ops", int64(ops))
 	c.Cell(fmt.Sprintf("storm|%s|g=%d", ifStr(disk, "disk", "mem"), g))
 	seen := map[string]bool{}
@@ -88,6 +97,7 @@ func stormScenario(c *sup.Ctx, r *rng.R) {
 		}
 		seen[kind] = true
 		c.Viol([]string{"C13"}, "storm|"+kind+"|"+ifStr(disk, "disk", "mem"), text, nil)
+		_ = kind
 	}
 	c.Sample(map[string]any{"disk": disk, "goroutines": g, "ops": ops, "problems": len(problems)})
 }
